@@ -616,8 +616,9 @@ func init() {
 			hj := func(label, build, server string, bound, budget int) reg.Job {
 				return reg.Job{Part: "C11/hangup", Build: build, Args: map[string]string{"server": server, "bound": fmt.Sprint(bound)}, Shards: 16, BudgetS: budget, Label: label}
 			}
+			rsOnly := func(j reg.Job) bool { return j.Args["server"] != "os" }
 			if tier == "thorough" {
-				return []reg.Job{
+				return withPolicies(tier, []reg.Job{
 					j("rs sessions depth 5, 2 handles, full alphabet", "instr-w2", "rs", 5, 2, true, false, false, 900),
 					j("rs sessions depth 4, 3 handles, byte cuts", "instr-w2", "rs", 4, 3, false, true, true, 900),
 					func() reg.Job {
@@ -630,9 +631,9 @@ func init() {
 					hj("rs hang-up with requests in flight W=8 db2", "instr", "rs", 2, 600),
 					{Part: "C11/midclose", Build: "instr", Args: map[string]string{"bound": "3"}, Shards: 16, BudgetS: 600, Label: "rs: request sent while the handler's Close is running, W=8 db3"},
 					hj("os hang-up with requests in flight W=2 db3", "instr-w2", "os", 3, 600),
-				}
+				}, rsOnly)
 			}
-			return []reg.Job{
+			return withPolicies(tier, []reg.Job{
 				j("rs sessions depth 4, 2 handles", "instr-w2", "rs", 4, 2, false, false, false, 100),
 				j("rs sessions depth 3, byte cuts, alloc", "instr-w2", "rs", 3, 2, false, true, true, 100),
 				func() reg.Job {
@@ -644,7 +645,7 @@ func init() {
 				hj("rs hang-up with requests in flight W=2 db2", "instr-w2", "rs", 2, 100),
 				{Part: "C11/midclose", Build: "instr-w2", Args: map[string]string{"bound": "3"}, Shards: 16, BudgetS: 100, Label: "rs: request sent while the handler's Close is running, db3"},
 				hj("os hang-up with requests in flight W=2 db2", "instr-w2", "os", 2, 100),
-			}
+			}, rsOnly)
 		},
 	})
 }
